@@ -222,7 +222,7 @@ func c03Leaf(r *core.Run) {
 		}
 		return
 	}
-	nConst, nFunc, nGlobal := 0, 0, 0
+	nConst, nFunc, nGlobal, nExact := 0, 0, 0, 0
 	for _, ret := range core.Returns(norm) {
 		calls, _ := ingredients(ret.Results[0])
 		joined := strings.Join(calls, " ; ")
@@ -230,6 +230,24 @@ func c03Leaf(r *core.Run) {
 		case under(ret.Block(), "ssa.Const"):
 			nConst++
 			r.Check(strings.Contains(joined, "ssa.Const).Type("), "C03.LEAF", nn+"#const-rendering", ret.Pos(), "constant rendered together with its type", "a constant is rendered without its type ("+joined+"): uint8 vs int8 arithmetic, any(int64(1)) vs any(int32(1)) collide")
+			// the value is rendered exactly: String() of a constant.Value (or of the ssa.Const) abbreviates long
+			// strings, large integers and most floats
+			lossy := ""
+			for _, l := range []string{"constant.Value).String(", "ssa.Const).String(", "ssa.Const).Name(", "ssa.Const).RelString(", "ssa.Const).Float64(", "ssa.Const).Int64(", "ssa.Const).Uint64(", "constant.Float64Val(", "constant.Float32Val(", "constant.Int64Val(", "constant.Uint64Val(", "constant.Val("} {
+				if strings.Contains(joined, l) {
+					lossy = l
+				}
+			}
+			_, vals := ingredients(ret.Results[0])
+			for _, v := range vals {
+				if v != nil && strings.HasSuffix(v.Type().String(), "go/constant.Value") {
+					lossy = "a constant.Value formatted by fmt (its String method)"
+				}
+			}
+			if strings.Contains(joined, "ExactString(") || strings.Contains(joined, "constant.StringVal(") {
+				nExact++
+			}
+			r.Check(lossy == "", "C03.LEAF", nn+"#const-value-exact", ret.Pos(), "no abbreviating rendering of a constant's value is used", "a constant's value is rendered through "+lossy+" — which abbreviates: 0.1234567 and 0.12345678, or two long strings with a common prefix, collide")
 		case under(ret.Block(), "ssa.Global"):
 			nGlobal++
 			r.Check(strings.Contains(joined, ".Path(") && strings.Contains(joined, "ssa.Global).Name(") && strings.Contains(joined, "ssa.Global).Type("), "C03.LEAF", nn+"#global-rendering", ret.Pos(), "global rendered with package path, name and type", "a global is rendered without package path / name / type ("+joined+")")
@@ -259,6 +277,7 @@ func c03Leaf(r *core.Run) {
 		}
 	}
 	r.Floor("C03.LEAF", "constant renderings", nConst, 3)
+	r.Floor("C03.LEAF", "constant renderings through ExactString / StringVal", nExact, 2)
 	r.Floor("C03.LEAF", "function-reference renderings", nFunc, 1)
 	r.Floor("C03.LEAF", "global renderings", nGlobal, 1)
 
@@ -293,6 +312,25 @@ func c03Leaf(r *core.Run) {
 			}
 		})
 		r.Check(usesLoop, "C03.LEAF", core.FuncName(fn)+"#recurrence-names-its-loop", fn.Pos(), "the rendering of an add-recurrence includes a label of its loop obtained from the renamer", "an add-recurrence is rendered as {start, +, step} without its loop: induction variables of different loops are indistinguishable (a[i][j] vs a[j][i])")
+		// ... and on every path: the only excuses for not asking are a missing renamer, a missing loop or a loop without a
+		// header — not a property of the loop (its depth, its parent, its kind)
+		if usesLoop {
+			excuse := func(x ssa.Value) bool {
+				x = core.Unwrap(x)
+				if b, ok := core.FieldLoad(x, "Loop"); ok {
+					return core.Unwrap(b) == ssa.Value(fn.Params[0])
+				}
+				if b, ok := core.FieldLoad(x, "Header"); ok {
+					_, ok2 := core.FieldLoad(core.Unwrap(b), "Loop")
+					return ok2
+				}
+				return false
+			}
+			askBlocks, wit := renamerAskedOnEveryPath(fn, "loop.LoopRef", excuse)
+			r.Check(wit == nil && len(askBlocks) > 0, "C03.LEAF", core.FuncName(fn)+"#recurrence-names-its-loop-on-every-path", fn.Pos(),
+				"every rendering of an add-recurrence with a renamer, a loop and a header asks for the loop's label",
+				"an add-recurrence can be rendered without asking for its loop's label although renamer, loop and header are present (path "+core.FmtPath(wit)+"): recurrences of the loops so exempted collide with each other")
+		}
 	}
 	r.Floor("C03.LEAF", "add-recurrence renderer", nAR, 1)
 	nLR := 0
@@ -447,6 +485,162 @@ func c03Perm(r *core.Run) {
 		r.Check(read, "C03.PERM", core.FuncName(fn)+"#sort(States)", sortCall.Pos(), "the sorted cases keep their original index observable", "select cases are sorted for rendering but their original indices are never rendered while Extract/compare instructions still use source indices: exchanging the channels of two cases leaves the IR unchanged")
 	}
 	r.Floor("C03.PERM", "clauses that sort a sequence of the instruction", n, 1)
+	c03PermCensus(r)
+}
+
+// c03PermCensus: the position of an operand inside its instruction is part of the instruction's meaning (call
+// arguments, captured variables, struct fields ...). The canonicaliser may reorder a sequence that derives from an
+// operand list of an SSA construct only for the lists in the reviewed table below: phi edges (each rendered with
+// the label of its predecessor, which is its identity), select states (decided by the rule above), and block lists
+// (traversal order, decided by C02/C04).
+var permAllowedLists = map[string]string{
+	"ssa.Phi.Edges":         "each edge is rendered together with its predecessor's label",
+	"ssa.BasicBlock.Preds":  "predecessor labels identify phi edges",
+	"ssa.BasicBlock.Succs":  "traversal order of blocks (C02.SWAP / C04.SUCC decide it)",
+	"ssa.Select.States":     "decided by the select rule above",
+	"ssa.Function.Blocks":   "traversal order of blocks",
+	"ssa.BasicBlock.Instrs": "",
+}
+
+func c03PermCensus(r *core.Run) {
+	p := r.P
+	sortNames := map[string]bool{"sort.Strings": true, "sort.Ints": true, "sort.Slice": true, "sort.SliceStable": true, "sort.Sort": true, "sort.Stable": true,
+		"slices.Sort": true, "slices.SortFunc": true, "slices.SortStableFunc": true, "slices.Reverse": true}
+	n := 0
+	for _, fn := range p.FuncsIn("pkg/analysis/ir") {
+		core.InstrsOf(fn, func(in ssa.Instruction) {
+			c, ok := in.(*ssa.Call)
+			if !ok || !sortNames[core.CalleeName(&c.Call)] || len(c.Call.Args) == 0 {
+				return
+			}
+			n++
+			lists := operandListsBehind(c.Call.Args[0])
+			var bad []string
+			for _, l := range lists {
+				if why, ok := permAllowedLists[l]; !ok || why == "" {
+					bad = append(bad, l)
+				}
+			}
+			sortStrings(bad)
+			sortStrings(lists)
+			for _, b := range bad {
+				r.Fail("C03.PERM", core.FuncName(fn)+"#reorders("+b+")", c.Pos(), "a sequence derived from "+b+" is reordered before it is rendered: the position of an operand is part of the instruction's meaning, so two instructions that differ in which operand is which render alike")
+			}
+			if len(bad) == 0 {
+				r.OK("C03.PERM", core.FuncName(fn)+"#reorders("+strings.Join(lists, ",")+")", c.Pos(), "reorders only sequences of the reviewed table")
+			}
+		})
+	}
+	r.Floor("C03.PERM", "sort calls in the canonicaliser", n, 5)
+}
+
+// operandListsBehind walks backwards from a slice value through the values stored into it and returns the operand
+// lists (Type.Field of a go/ssa construct, or "param []ssa.Value") its elements derive from.
+func operandListsBehind(v ssa.Value) []string {
+	seen := map[ssa.Value]bool{}
+	found := map[string]bool{}
+	var walk func(v ssa.Value, d int)
+	storesInto := func(base ssa.Value, d int) {
+		refs := base.Referrers()
+		if refs == nil {
+			return
+		}
+		for _, ref := range *refs {
+			switch x := ref.(type) {
+			case *ssa.IndexAddr:
+				for _, st := range core.StoresTo(x) {
+					walk(st.Val, d+1)
+				}
+			case *ssa.FieldAddr:
+				for _, st := range core.StoresTo(x) {
+					walk(st.Val, d+1)
+				}
+			case *ssa.Store:
+				if x.Addr == base {
+					walk(x.Val, d+1)
+				}
+			case *ssa.Slice:
+				if x.X == base && !seen[x] {
+					// a reslice of the same backing array (make + append pattern)
+					seen[x] = true
+				}
+			}
+		}
+	}
+	walk = func(v ssa.Value, d int) {
+		if v == nil || seen[v] || len(seen) > 600 || d > 40 {
+			return
+		}
+		seen[v] = true
+		if prm, ok := v.(*ssa.Parameter); ok {
+			if sl, isSl := prm.Type().Underlying().(*types.Slice); isSl && strings.Contains(sl.Elem().String(), ssaPkgPath) && !strings.HasSuffix(sl.Elem().String(), "ssa.BasicBlock") {
+				found["param []"+core.TypeName(sl.Elem())] = true
+			}
+			return
+		}
+		// a load of a slice-typed field of a go/ssa construct
+		if u, ok := v.(*ssa.UnOp); ok && u.Op == token.MUL {
+			if fa, isFA := u.X.(*ssa.FieldAddr); isFA {
+				if _, isSl := u.Type().Underlying().(*types.Slice); isSl && strings.Contains(core.Deref(fa.X.Type()).String(), ssaPkgPath) {
+					found[core.TypeName(core.Deref(fa.X.Type()))+"."+core.FieldName(fa.X.Type(), fa.Field)] = true
+					return
+				}
+			}
+		}
+		if c, ok := v.(*ssa.Call); ok && strings.Contains(core.CalleeName(&c.Call), ").Operands") {
+			found["Instruction.Operands"] = true
+			return
+		}
+		switch x := v.(type) {
+		case *ssa.Alloc:
+			storesInto(x, d)
+			return
+		case *ssa.MakeSlice:
+			storesInto(x, d)
+			return
+		case *ssa.UnOp:
+			if x.Op == token.MUL {
+				if a, ok := x.X.(*ssa.Alloc); ok {
+					for _, st := range core.StoresTo(a) {
+						walk(st.Val, d+1)
+					}
+					storesInto(a, d)
+					return
+				}
+				if fa, ok := x.X.(*ssa.FieldAddr); ok {
+					// a field of a local struct: what was stored into that field
+					if a, ok := fa.X.(*ssa.Alloc); ok {
+						if refs := a.Referrers(); refs != nil {
+							for _, ref := range *refs {
+								if fa2, ok := ref.(*ssa.FieldAddr); ok && fa2.Field == fa.Field {
+									for _, st := range core.StoresTo(fa2) {
+										walk(st.Val, d+1)
+									}
+								}
+							}
+						}
+						return
+					}
+				}
+			}
+		case *ssa.Slice:
+			walk(x.X, d+1)
+			return
+		}
+		if in, ok := v.(ssa.Instruction); ok {
+			for _, op := range in.Operands(nil) {
+				if op != nil && *op != nil {
+					walk(*op, d+1)
+				}
+			}
+		}
+	}
+	walk(v, 0)
+	var out []string
+	for l := range found {
+		out = append(out, l)
+	}
+	return out
 }
 
 // ---- GATE: branch swap
@@ -1020,4 +1214,43 @@ func c03GateHoist(r *core.Run) {
 		}
 	}
 	r.Floor(rule, "hoisting decision (writes a map[ssa.Instruction]bool mark)", n, 1)
+}
+
+// renamerAskedOnEveryPath: fn (a StringWithRenamer method) calls its renamer parameter with a value of type
+// refType on every path to a return; the only excuses are a nil renamer and the nil tests accepted by excuse.
+func renamerAskedOnEveryPath(fn *ssa.Function, refType string, excuse func(ssa.Value) bool) (askBlocks []*ssa.BasicBlock, wit []int) {
+	core.InstrsOf(fn, func(in ssa.Instruction) {
+		if c, ok := in.(*ssa.Call); ok && !c.Call.IsInvoke() && core.StaticCallee(&c.Call) == nil && len(c.Call.Args) == 1 {
+			if _, isParam := c.Call.Value.(*ssa.Parameter); isParam && strings.HasSuffix(core.Unwrap(c.Call.Args[0]).Type().String(), refType) {
+				askBlocks = append(askBlocks, c.Block())
+			}
+		}
+	})
+	exc := func(x ssa.Value) bool {
+		x = core.Unwrap(x)
+		if prm, ok := x.(*ssa.Parameter); ok {
+			_, isFn := prm.Type().Underlying().(*types.Signature)
+			return isFn
+		}
+		return excuse != nil && excuse(x)
+	}
+	cut, _ := core.GuardEdges(fn, core.NilGuard(exc))
+	for _, ab := range askBlocks {
+		for _, pb := range ab.Preds {
+			for i, sb := range pb.Succs {
+				if sb == ab {
+					cut[core.Edge{From: pb, Idx: i}] = true
+				}
+			}
+		}
+	}
+	for _, ret := range core.Returns(fn) {
+		if len(askBlocks) > 0 && ret.Block() == askBlocks[0] {
+			continue
+		}
+		if pth := core.PathAvoiding(fn.Blocks[0], ret.Block(), cut); pth != nil {
+			return askBlocks, pth
+		}
+	}
+	return askBlocks, nil
 }
